@@ -214,12 +214,16 @@ def place_share(g, cap, server, shnum, raw):
 
 # (numbers deleted, numbers copied to a second server): N or more share files with fewer than N distinct numbers
 LAYOUTS = [("N-files/N-1-distinct", 1, 1), ("N-files/N-2-distinct", 2, 2), ("N+1-files/N-1-distinct", 1, 2),
-           ("N+1-files/N-distinct", 0, 1), ("N+2-files/N-1-distinct", 1, 3), ("N-1-files/N-2-distinct", 2, 1)]
+           ("N+1-files/N-distinct", 0, 1), ("N+2-files/N-1-distinct", 1, 3), ("N-1-files/N-2-distinct", 2, 1),
+           # every number present and good, plus extra CORRUPT copies of some numbers on other servers (4th field)
+           ("N-good+1-corrupt-copy", 0, 0, 1), ("N-good+2-corrupt-copies", 0, 0, 2), ("N-1-good+1-corrupt-copy", 1, 0, 1),
+           ("N-good+1-good-copy+1-corrupt-copy", 0, 1, 1)]
 
 
 def apply_layout(r, g, cap, shares, raws, nservers, layout):
     """Delete some share numbers and copy other (good) share files to servers that do not hold that number."""
-    label, ndel, ndup = layout
+    label, ndel, ndup = layout[:3]
+    ncorrupt = layout[3] if len(layout) > 3 else 0
     desc = []
     pool = list(shares)
     r.shuffle(pool)
@@ -237,6 +241,20 @@ def apply_layout(r, g, cap, shares, raws, nservers, layout):
         dst = r.choice(free)
         place_share(g, cap, dst, src.shnum, raws[(src.server, src.shnum)])
         desc.append(("duplicate-on-server", dst, src.shnum))
+    for _ in range(ncorrupt):
+        src = r.choice(left)
+        holders = set(s.server for s in left if s.shnum == src.shnum) | set(d[1] for d in desc if len(d) == 3 and d[2] == src.shnum)
+        free = [x for x in range(nservers) if x not in holders]
+        if not free:
+            continue
+        dst = r.choice(free)
+        head, pay, leases = C.split_container(raws[(src.server, src.shnum)])
+        ver, fs, offs = C.parse_header(pay)
+        b = bytearray(pay)
+        where = r.choice(["data", "block_hashes", "crypttext_hash_tree", "share_hashes"])
+        b[offs[where] + r.randrange(2, 30)] ^= r.choice([1, 0x80, 0xff])
+        place_share(g, cap, dst, src.shnum, C.join_container(head, bytes(b), leases))
+        desc.append(("corrupt-copy-on-server:" + where, dst, src.shnum))
     return desc
 
 
@@ -382,6 +400,10 @@ def history(ctx, i, jobs, layout=None):
             pre_per, pre_agg = results_of(g, crr.get_pre_repair_results())
             post_per, post_agg = results_of(g, crr.get_post_repair_results())
             distinct_before = len(good_numbers) if verify else len(present)
+            if distinct_before == n and crr.get_repair_attempted() and not unreadable:
+                ctx.oracle_fail("repair-attempted-on-healthy-file",
+                                "all %d share numbers have a %s share (%d share files, damage: %s) but check_and_repair(verify=%s) started a repair" % (
+                                    n, "valid" if verify else "stored", len(before), desc, verify), case=case_r)
             if distinct_before < n and not crr.get_repair_attempted() and not unreadable:
                 ctx.oracle_fail("repair-not-attempted-on-unhealthy-file",
                                 "only %d distinct %s share numbers are stored (N=%d, %d share files) but check_and_repair(verify=%s) found the file healthy and did not repair" % (
@@ -887,7 +909,7 @@ def run(ctx):
     jobs = []
     for i in range(ctx.n(60, 700)):
         history(ctx, i, jobs)
-    for i in range(ctx.n(18, 120)):
+    for i in range(ctx.n(30, 150)):
         history(ctx, i, jobs, layout=LAYOUTS[i % len(LAYOUTS)])
     for i in range(ctx.n(15, 60)):
         inconsistent_ueb(ctx, i, jobs)
